@@ -200,7 +200,9 @@ theorem recvMessages_promoted (H : Hs) (tok : Nat) (tempTok : Option Nat) (t : I
           · simp at h
           · split at h
             · simp at h
-            · split at h <;> simp at h
+            · split at h
+              · simp at h
+              · split at h <;> simp at h
         · simp [serverRole] at h
         · rename_i hty
           have := (C02_promote_only_on_token H tempTok _ t m.payload).1 (by simpa [serverRole] using h)
@@ -254,6 +256,7 @@ token, the client is CONNECTED, and the server — on receiving the client's cha
 temp-pool entry carries that token — promotes the connection exactly once and is CONNECTED. -/
 theorem C02_honest_agree (H : Hs) (tok : Nat) (srv cli : Conn) (t : Int) (hello : Bytes)
     (root payload sig spub salt : Bytes)
+    (hfresh : srv.key = none)
     (hver : H.parseClientHello hello = .ok 1)
     (hpad : (H.serverReply hello tok).2.length ≤ hello.length)
     (hparse : H.parseServerHello (H.serverReply hello tok).2 = .ok (root, payload, sig))
@@ -270,7 +273,7 @@ theorem C02_honest_agree (H : Hs) (tok : Nat) (srv cli : Conn) (t : Int) (hello 
   have hs : (serverClientHello H tok srv t hello).1.key = some (H.serverReply hello tok).1 ∧
       (serverClientHello H tok srv t hello).1.token = tok := by
     have hpad' : ¬ (H.serverReply hello tok).2.length > hello.length := by omega
-    simp only [serverClientHello, hver, ne_eq, not_true_eq_false, if_false, hpad', sendType]
+    simp only [serverClientHello, hfresh, Option.isSome_none, Bool.false_eq_true, hver, ne_eq, not_true_eq_false, if_false, hpad', sendType]
     first | (split <;> exact ⟨rfl, rfl⟩) | exact ⟨trivial, trivial⟩ | simp
   have hc : (clientServerHello H cli t (H.serverReply hello tok).2).1 = adopt H cli spub salt tok := by
     simp [clientServerHello, hparse, hsig, hpay]
@@ -283,12 +286,12 @@ theorem C02_honest_agree (H : Hs) (tok : Nat) (srv cli : Conn) (t : Int) (hello 
 
 /-- server side of the hello: a hello that does not decode, or of another protocol version,
 leaves the fresh connection without key, token and reply -/
-theorem C02_server_hello_gate (H : Hs) (tok : Nat) (c : Conn) (t : Int) (data : Bytes) :
+theorem C02_server_hello_gate (H : Hs) (tok : Nat) (c : Conn) (t : Int) (data : Bytes) (hfresh : c.key = none) :
     (∀ e, H.parseClientHello data = .error e → serverClientHello H tok c t data = (c, [], some e)) ∧
     (∀ v, H.parseClientHello data = .ok v → v ≠ 1 → serverClientHello H tok c t data = (c, [], none)) := by
   constructor
-  · intro e he; simp [serverClientHello, he]
-  · intro v hv hne; simp [serverClientHello, hv, hne]
+  · intro e he; simp [serverClientHello, hfresh, he]
+  · intro v hv hne; simp [serverClientHello, hfresh, hv, hne]
 
 /-! ### non-vacuity: an `Hs` instance satisfying the honest-run hypotheses -/
 
